@@ -95,17 +95,31 @@ def entropy(counts, base):
     return -sum((c / tot) * math.log(c / tot) / math.log(base) for c in counts)
 
 
+def pack_like_numpy(sym, l):
+    """Identity of each word when symbols are packed as decimal digits in numpy arithmetic (int64 up to 18-19 digits, float64
+    / object beyond): the representation whose collisions are the known finding C07/gsl-word-packing."""
+    ts = np.asarray(sym)
+    n = len(ts) + 1 - l
+    acc = np.zeros(shape=(n,), dtype=np.int32)
+    with np.errstate(all="ignore"):
+        for i in range(l):
+            acc = acc + ts[i:n + i] * (10 ** (l - i - 1))
+    return [x.item() if hasattr(x, "item") else x for x in acc]
+
+
 def ref_gsl(members, y, b, L, packed=False):
     T = len(y)
-    ident = (lambda w: sum(s * 10 ** (len(w) - i - 1) for i, s in enumerate(w))) if packed else (lambda w: w)
     oy = symbols(y, b)
     total, multi = 0.0, False
     for x in members:
         sx = symbols(x, b)
         div = 0.0
         for l in range(1, L + 1):
-            wx = [ident(tuple(sx[i:i + l])) for i in range(len(sx) - l + 1)]
-            wy = [ident(tuple(oy[i:i + l])) for i in range(len(oy) - l + 1)]
+            if packed:
+                wx, wy = pack_like_numpy(sx, l), pack_like_numpy(oy, l)
+            else:
+                wx = [tuple(sx[i:i + l]) for i in range(len(sx) - l + 1)]
+                wy = [tuple(oy[i:i + l]) for i in range(len(oy) - l + 1)]
             cs, cm = Counter(wx), Counter(wx + wy)
             multi = multi or len(cm) >= 2
             base = float(b) ** l
@@ -225,8 +239,8 @@ def check_loss(ctx: Ctx, case):
                     T = len(y)
                     b = int((T - 1) / 2.0) if spec.get("nb_values") is None else spec["nb_values"]
                     L = int((T - 1) / 2.0) if spec.get("nb_word_lengths") is None else spec["nb_word_lengths"]
-                    if b < 2 or L < 1 or L > 18 or L > T:
-                        ctx.exclude("gsl: fewer than 2 symbols, no word length, or word length > 18 / > T")
+                    if b < 2 or L < 1 or L > T:
+                        ctx.exclude("gsl: fewer than 2 symbols, no word length, or word length > T")
                         ctx.count(sub, case, False, classes)
                         return
                     v, multi = ref_gsl(filtered[i], y, b, L)
@@ -234,6 +248,8 @@ def check_loss(ctx: Ctx, case):
                     ref_packed += vp * w[i]
                     gsl_multi = gsl_multi or multi
                     classes.append("b>=11" if b >= 11 else "b<=10")
+                    if L >= 19:
+                        classes.append("L>=19")
                 else:
                     calc = lg.CALCS[spec["calc"]][0] if spec.get("calc") else __import__(
                         "black_it.utils.time_series", fromlist=["x"]).get_mom_ts_1d
